@@ -46,7 +46,7 @@ def run(chk):
         cl.model_check(chk, 3, big=True)
         cl.apalache_txnmap(chk)
     sc = cl.model_scenarios(chk, 2) + cl.model_scenarios(chk, 3, keep_every=1 if thorough else 24, offset=chk.seed)
-    walks = cl.random_walks(chk.seed, 2000 if thorough else 100, 40)
+    walks = cl.random_walks(chk.seed, 2000 if thorough else 100, 40, read_card=True, configure=True)
     sim = similar_tokens()
     scripts = cl.script_walks(chk, binary, wd, chk.seed + 7, 2000 if thorough else 150)
     out = cl.run_scenarios(binary, sc + sim + walks + scripts, wd, "c07")
